@@ -42,6 +42,7 @@ func chanDesc(p *an.Prog, v ssa.Value) string { return p.Desc(v) }
 
 func runC20(c *report.Ctx) {
 	p := c.P
+	ruleBusyGateBeforeAcceptedTask(c)
 	roots, start := quitWgGoroutines(c)
 
 	// ---- (1) channel discipline -------------------------------------------------------------------------
